@@ -61,17 +61,17 @@ type VerifSchedEvent struct {
 
 // VerifSched is one scheduler instance (one execution).
 type VerifSched struct {
-	mu       sync.Mutex
-	threads  []*schedThread
-	byGoid   map[int64]*schedThread
-	events   chan schedEvent
-	choose   func(n int, label string, cost []int) int
-	readers  map[*fileStore]int
-	writer   map[*fileStore]*schedThread
-	Trace    []VerifSchedEvent
-	Problems []string
+	mu           sync.Mutex
+	threads      []*schedThread
+	byGoid       map[int64]*schedThread
+	events       chan schedEvent
+	choose       func(n int, label string, cost []int) int
+	readers      map[*fileStore]int
+	writer       map[*fileStore]*schedThread
+	Trace        []VerifSchedEvent
+	Problems     []string
 	ProblemKinds []string
-	ticks    int
+	ticks        int
 	// statement window tracking (M2)
 	stmtKind     string
 	stmtOpen     bool // inside a statement
